@@ -56,8 +56,8 @@ class PathMismatch(Exception):
 
 
 def ctrace(ctx, g, name, inputs, fn, expect, pcname=None, sampler=None, tol=1e-11, out=None, num_fn=None, val=None):
-    """trace fn concolically under GENERAL; `expect` is the truth pattern ('T'/'F' per DISTINCT comparison, in
-    order of first occurrence) the fixed theorems were written for.  Emits pc_<pcname>_<k> = gts - lts."""
+    """trace fn concolically under GENERAL; `expect` is the truth pattern (per DISTINCT comparison, in order of first
+    occurrence: 'T'/'F' a strict test taken / not taken, 't'/'f' a non-strict one) the fixed theorems were written for.  Emits pc_<pcname>_<k> = gts - lts."""
     _setval(**dict(GENERAL, **(val or {})))
     holder = {}
 
@@ -73,15 +73,20 @@ def ctrace(ctx, g, name, inputs, fn, expect, pcname=None, sampler=None, tol=1e-1
     for rel, truth in holder.get('path', []):
         if not any(rel == r0 for r0, _ in distinct):
             distinct.append((rel, truth))
-    got = ''.join('T' if tr else 'F' for _, tr in distinct)
+    def letter(rel, tr):
+        strict = isinstance(rel, (sympy.StrictGreaterThan, sympy.StrictLessThan))
+        if not strict and not isinstance(rel, (sympy.GreaterThan, sympy.LessThan)):
+            ctx.fail(f'path:{pcname}:relation', f"comparison {rel} in {pcname} is not an order comparison", no_input=True)
+        c = 'T' if tr else 'F'
+        return c if strict else c.lower()
+    got = ''.join(letter(rel, tr) for rel, tr in distinct)
     if got != expect:
         ctx.fail(f'path:{pcname}', f"the comparisons made by {pcname} on an input in general position are {got} "
-                 f"({[str(r) for r, _ in distinct]}), the theorems were written for {expect}", no_input=True)
+                 f"({[str(r) for r, _ in distinct]}), the theorems were written for {expect} (upper case: strict test, taken <-> 0 < pc; "
+                 f"lower case: non-strict test, taken <-> 0 <= pc)", no_input=True)
     for k, (rel, truth) in enumerate(distinct):
         e = rel.gts - rel.lts
         strict = isinstance(rel, (sympy.StrictGreaterThan, sympy.StrictLessThan))
-        if not strict:
-            ctx.fail(f'path:{pcname}:nonstrict', f"comparison {rel} in {pcname} is not strict any more", no_input=True)
         syms = [s for an, sh in inputs for s in _syms(an, sh)]
         f = sympy.lambdify(syms, e, modules='math')
 
@@ -89,7 +94,7 @@ def ctrace(ctx, g, name, inputs, fn, expect, pcname=None, sampler=None, tol=1e-1
             flat = [float(x) for v in a for x in np.asarray(v, float).flatten()]
             return f(*flat)
         g.trace(f'pc_{pcname}_{k}', inputs, (lambda e: lambda *a: e)(e), num_fn=num, sampler=sampler, tol=1e-9, out='S',
-                note=f"path atom of {pcname}: the code tests  {rel}  (taken: {truth});  test <-> 0 < pc_{pcname}_{k}")
+                note=f"path atom of {pcname}: the code tests  {rel}  (taken: {truth});  test <-> 0 {'<' if strict else '<='} pc_{pcname}_{k}")
     return t
 
 
@@ -153,8 +158,8 @@ def build(ctx):
     # ---- accessors
     g.trace('tr_pp', [('L', V6)], lambda L: PL(L).pp)
     g.trace('tr_ppd', [('L', V6)], lambda L: PL(L).ppd)
-    ctrace(ctx, g, 'tr_point', [('L', V6), ('k', S)], lambda L, k: PL(L).point(k).flatten(), 'T', 'point')
-    ctrace(ctx, g, 'tr_closest_p', [('L', V6), ('x', V3)], lambda L, x: PL(L).closest(x).p, 'T', 'closest', tol=1e-10)
+    ctrace(ctx, g, 'tr_point', [('L', V6), ('k', S)], lambda L, k: PL(L).point(k).flatten(), 't', 'point')
+    ctrace(ctx, g, 'tr_closest_p', [('L', V6), ('x', V3)], lambda L, x: PL(L).closest(x).p, 't', 'closest', tol=1e-10)
     ctrace(ctx, g, 'tr_closest_d', [('L', V6), ('x', V3)], lambda L, x: PL(L).closest(x).d, 'T', tol=1e-10)
     ctrace(ctx, g, 'tr_closest_lam', [('L', V6), ('x', V3)], lambda L, x: PL(L).closest(x).lam, 'T', tol=1e-10)
     g.trace('tr_contains_res', [('L', V6), ('x', V3)],
@@ -162,7 +167,7 @@ def build(ctx):
             num_fn=lambda L, x: np.linalg.norm(np.cross(x - PL(L).pp, PL(L).w)), tol=1e-10)
     # ---- pairs of lines
     ctrace(ctx, g, 'tr_eq_res', [('L', V6), ('M', V6)], lambda L, M: _rel_sides(PL(L) == PL(M), 'Plucker.__eq__', ctx),
-           'TT', 'eq', num_fn=lambda L, M: abs(1 - np.dot(base.unitvec(L), base.unitvec(M))))
+           'tt', 'eq', num_fn=lambda L, M: abs(1 - np.dot(base.unitvec(L), base.unitvec(M))))
     g.trace('tr_isparallel_res', [('L', V6), ('M', V6)],
             lambda L, M: _rel_sides(PL(L).isparallel(PL(M)), 'Plucker.isparallel', ctx),
             num_fn=lambda L, M: np.linalg.norm(np.cross(L[3:], M[3:])))
@@ -178,7 +183,7 @@ def build(ctx):
     ctrace(ctx, g, 'tr_intersects', [('L', V6), ('M', V6)], lambda L, M: PL(L).intersects(PL(M)), 'FT', 'intersects', tol=1e-9,
            val=MEETING, sampler=s_meeting, out='V3')
     # ---- line and plane
-    ctrace(ctx, g, 'tr_ip_p', [('L', V6), ('a', V4)], lambda L, a: PL(L).intersect_plane(Plane(a)).p, 'TT', 'ip', tol=1e-9)
+    ctrace(ctx, g, 'tr_ip_p', [('L', V6), ('a', V4)], lambda L, a: PL(L).intersect_plane(Plane(a)).p, 'Tt', 'ip', tol=1e-9)
     ctrace(ctx, g, 'tr_ip_lam', [('L', V6), ('a', V4)], lambda L, a: PL(L).intersect_plane(Plane(a)).lam, 'TT', tol=1e-9)
     def p3(p):
         # base.getmatrix forces float64; while tracing it is the identity on a 3x3 object array (the numeric run uses the real one)
@@ -378,6 +383,29 @@ class Oracle:
         self.ok('eq:opposite', not bool(L == opp) and bool(L != opp), "a line and its reversal compare ==", rp)
         self.ok('eq:shifted', not bool(L == shifted), "two parallel lines 1e-2 apart compare ==", rp)
         self.ok('eq:turned', not bool(L == turned), "two lines through a point at an angle >= 1e-2 compare ==", rp)
+        # objects holding several lines compare element-wise (a list of bool); a single line broadcasts; other operands are rejected
+        A = Plucker([np.array(L.vec, float), np.array(opp.vec, float), np.array(same.vec, float)])
+        B = Plucker([np.array(same.vec, float), np.array(same.vec, float), np.array(shifted.vec, float)])
+        okc, r = self.call('eq:multi', lambda: A == B, rp)
+        if okc:
+            self.ok('eq:multi:elementwise', isinstance(r, list) and [bool(x) for x in r] == [True, False, False],
+                    f"== between two objects holding 3 lines is {r!r}, expected [True, False, False]", rp)
+        okc, r = self.call('ne:multi', lambda: A != B, rp)
+        if okc:
+            self.ok('ne:multi:elementwise', isinstance(r, list) and [bool(x) for x in r] == [False, True, True],
+                    f"!= between two objects holding 3 lines is {r!r}, expected [False, True, True]", rp)
+        okc, r = self.call('eq:broadcast', lambda: L == B, rp)
+        if okc:
+            self.ok('eq:broadcast:elementwise', isinstance(r, list) and [bool(x) for x in r] == [True, True, False],
+                    f"(one line) == (object holding 3 lines) is {r!r}, expected [True, True, False]", rp)
+        for other in (5, np.array(L.vec, float)):
+            try:
+                r = (L == other)
+                self.ok('eq:non-plucker-operand', False, f"L == {type(other).__name__} returns {r!r} instead of raising TypeError", rp)
+            except TypeError:
+                self.ok('eq:non-plucker-operand', True, '', rp)
+            except Exception as ex:  # noqa
+                self.ok('eq:non-plucker-operand', False, f"L == {type(other).__name__} raises {type(ex).__name__} instead of TypeError", rp)
 
     # ---------------------------------------------------------------- pairs of lines
     def pair(self, pos, p1, w1, p2, w2, exact=False):
